@@ -71,6 +71,10 @@ def gen(tier, rng):
             cases.append("!seibig %s %d %s 1" % (pre, nff, post))
     # several large payloads in one NAL in non-monotonic size order (the scratch buffer is reused from message to message):
     # sizes around decimal and binary round numbers
+    for t in range(0, 60):
+        # every named payload type with a payload just above 4 KiB, not all 0xFF
+        body = bytes(rng.choice([0xff, 0xff, rng.randrange(256)]) for _ in range(rng.choice([4097, 4200, 5000])))
+        cases.append("sei raw:%s 1" % hx(enc_msgs([(t, body)])))
     for sizes in ([12000, 11000], [30000, 9, 10000], [10000, 10000], [9999, 10001, 10000], [70000, 65536, 4096, 65537],
                   [1000, 1500, 999, 1001], [100000, 50000, 99999]):
         msgs = [(rng.choice([0, 1, 5, 200]), bytes(rng.randrange(1, 255) for _ in range(n))) for n in sizes]
@@ -83,6 +87,10 @@ def gen(tier, rng):
         for size in ((1 << k) - 1, 1 << k, (1 << k) + 1, (1 << k) + 4000):
             body = bytes(rng.randrange(1, 255) for _ in range(size))
             full = enc_msgs([(5, body), (1, b"\x07")])
+            # the same size under another payload type (filler, registered / unregistered user data, reserved, ...)
+            for t in rng.sample([0, 1, 2, 3, 3, 4, 6, 45, 47, 137, 200, 255, 256, 1000], 4):
+                other = bytes(rng.choice([0xff, 0xff, 0xff, rng.randrange(256)]) for _ in range(size))
+                cases.append("sei raw:%s 2" % hx(enc_msgs([(t, other), (1, b"\x07")])))
             cases.append("sei raw:%s 2" % hx(full))
             head = len(ff(5)) + len(ff(size))
             for present in sorted({(1 << k) - 1, 1 << k, (1 << k) + 1, size - 1, size - 2}):
